@@ -50,6 +50,9 @@ class CommandHelp(AbstractHelp):
         if command.has_default_sub_commands():
             # If the command has default commands, print them
             for sub_command in command.default_sub_commands:
+                if sub_command.config.is_hidden():
+                    continue
+
                 # The name of the sub command is only optional (i.e. printed
                 # wrapped in brackets: "[sub]") if the command is not
                 # anonymous
